@@ -3,6 +3,7 @@ import AtreeModel.Replay.Array
 import AtreeModel.Replay.Storage
 import AtreeModel.Replay.Health
 import AtreeModel.Replay.Map
+import AtreeModel.Replay.World
 /-
   atree_model: replays a trace (stdin) on the Lean model and compares every line the
   implementation produced with the model's own rendering.
@@ -53,6 +54,12 @@ partial def loopMap (h : IO.FS.Stream) (s : MapState) (n : Nat) : IO MapState :=
   let line := (line.dropRightWhile (fun c => c == '\n' || c == '\r'))
   loopMap h (s.stepLine line n) (n + 1)
 
+partial def loopWorld (h : IO.FS.Stream) (s : WState) (n : Nat) : IO WState := do
+  let line ← h.getLine
+  if line.isEmpty then return s
+  let line := (line.dropRightWhile (fun c => c == '\n' || c == '\r'))
+  loopWorld h (s.stepLine line n) (n + 1)
+
 def main (args : List String) : IO UInt32 := do
   let stdin ← IO.getStdin
   match args with
@@ -71,11 +78,16 @@ def main (args : List String) : IO UInt32 := do
     let s := if s.pending.isEmpty then s else s.note s!"end of trace: model expected further lines: {s.pending}"
     IO.println ("RESULT " ++ reportJson "map" s.rep)
     return (if s.rep.nMismatch == 0 then 0 else 1)
+  | ["world"] =>
+    let s ← loopWorld stdin {} 1
+    let s := if s.pending.isEmpty then s else s.note s!"end of trace: model expected further lines: {s.pending}"
+    IO.println ("RESULT " ++ reportJson "world" s.rep)
+    return (if s.rep.nMismatch == 0 then 0 else 1)
   | ["health"] =>
     let s ← loopHealth stdin {} 1
     let s := if s.pending.isEmpty then s else s.note s!"end of trace: model expected further lines: {s.pending}"
     IO.println ("RESULT " ++ reportJson "health" s.rep)
     return (if s.rep.nMismatch == 0 then 0 else 1)
   | _ =>
-    IO.eprintln "usage: atree_model <array|storage|health|map> < trace"
+    IO.eprintln "usage: atree_model <array|storage|health|map|world> < trace"
     return 2
